@@ -1,11 +1,45 @@
-import json, sys, glob, jsonschema
+"""Validates /verif/evidence/*.json the way the harness does: against EVIDENCE.schema.json, plus
+the level rules the schema only states in prose (proof: discharged == obligations; a quiet run has
+violations == 0) and agreement with MANIFEST.json (every claimed check has a file whose level is
+the claimed category).  Run before every commit of /verif: exit 0 only if every file is valid.
+usage: python3-vt tools/validate_evidence.py [--committed]   (--committed: validate git HEAD's copies)"""
+import json, os, subprocess, sys
+import jsonschema
+
+VERIF = os.path.dirname(os.path.dirname(os.path.abspath(__file__)))
 schema = json.load(open('/root/.vp/EVIDENCE.schema.json'))
+manifest = json.load(open(os.path.join(VERIF, 'MANIFEST.json')))
+committed = '--committed' in sys.argv
 ok = True
-for f in sorted(glob.glob('/verif/evidence/*.json')):
+for chk in manifest['checks']:
+    pid, rel = chk['property_id'], chk['evidence_file']
     try:
-        ev = json.load(open(f)); jsonschema.validate(ev, schema)
+        if committed:
+            txt = subprocess.run(['git', '-C', VERIF, 'show', 'HEAD:' + rel], capture_output=True, text=True, check=True).stdout
+        else:
+            txt = open(os.path.join(VERIF, rel)).read()
+        ev = json.loads(txt)
+        jsonschema.validate(ev, schema)
         c = ev['coverage']
-        print(f.split('/')[-1], ev['level'], 'ok', c.get('obligations'), c.get('discharged'), c.get('evaluations'), c.get('distinct_nontrivial'))
+        problems = []
+        if ev['property_id'] != pid:
+            problems.append(f"property_id {ev['property_id']} != {pid}")
+        if ev['level'] != chk['level_claimed']['category']:
+            problems.append(f"level {ev['level']} != claimed {chk['level_claimed']['category']}")
+        if ev['level'] == 'proof' and c.get('obligations') != c.get('discharged'):
+            problems.append(f"discharged ({c.get('discharged')}) != obligations ({c.get('obligations')})")
+        if ev['level'] == 'proof' and 'obligations' not in c:
+            problems.append('proof keys absent (undecided run)')
+        if ev.get('violations'):
+            problems.append(f"violations = {ev['violations']}")
+        if c.get('undecided_reason') or c.get('undecided_obligations'):
+            problems.append(f"undecided: {c.get('undecided_reason') or c.get('undecided_obligations')}")
+        if not c.get('samples'):
+            problems.append('no samples')
+        if problems:
+            raise ValueError('; '.join(problems))
+        print(pid, ev['level'], 'ok', 'tier=' + ev['tier'], 'seed=%s' % ev['seed'], c.get('obligations'), c.get('discharged'), c.get('evaluations'), c.get('distinct_nontrivial'), 'wall=%ss' % ev['wall_s'])
     except Exception as e:
-        ok = False; print(f, 'INVALID', str(e)[:200])
+        ok = False
+        print(pid, 'INVALID', str(e)[:300])
 sys.exit(0 if ok else 1)
